@@ -119,10 +119,10 @@ func (e *Expression) Add(res fhir.Resource, name string, value fhir.Base, option
 		// and error if it would never be possible.
 		return fmt.Errorf("%w: '%v'", ErrInvalidField, name)
 	}
-	if res == nil {
+	if isNil(res) {
 		return fmt.Errorf("%w: nil input resource", ErrInvalidInput)
 	}
-	if value == nil {
+	if isNil(value) {
 		return fmt.Errorf("%w: nil replacement value", ErrInvalidInput)
 	}
 
@@ -297,7 +297,7 @@ func (e *Expression) newSetOneof(msg protoreflect.Message, value proto.Message) 
 //
 // See documentation: https://hl7.org/fhir/R4/fhirpatch.html#concept.
 func (e *Expression) Delete(res fhir.Resource, options ...fhirpath.EvaluateOption) error {
-	if res == nil {
+	if isNil(res) {
 		return fmt.Errorf("%w: nil input resource", ErrInvalidInput)
 	}
 	ctx, evalResult, err := e.evaluate(res, options...)
@@ -370,10 +370,10 @@ func (e *Expression) tryDelete(collection system.Collection, toDelete any) error
 //
 // See documentation: https://hl7.org/fhir/R4/fhirpatch.html#concept.
 func (e *Expression) Insert(res fhir.Resource, value fhir.Base, index int, options ...fhirpath.EvaluateOption) error {
-	if res == nil {
+	if isNil(res) {
 		return fmt.Errorf("%w: nil input resource", ErrInvalidInput)
 	}
-	if value == nil {
+	if isNil(value) {
 		return fmt.Errorf("%w: nil value to insert", ErrInvalidInput)
 	}
 	ctx, evalResult, err := e.evaluate(res, options...)
@@ -475,10 +475,10 @@ func (e *Expression) Move(resource fhir.Resource, sourceIndex, destIndex int, op
 //
 // See documentation: https://hl7.org/fhir/R4/fhirpatch.html#concept.
 func (e *Expression) Replace(resource fhir.Resource, value fhir.Base, options ...fhirpath.EvaluateOption) error {
-	if resource == nil {
+	if isNil(resource) {
 		return fmt.Errorf("%w: nil input resource", ErrInvalidInput)
 	}
-	if value == nil {
+	if isNil(value) {
 		return fmt.Errorf("%w: nil replacement value", ErrInvalidInput)
 	}
 	ctx, evalResult, err := e.evaluate(resource, options...)
@@ -664,6 +664,12 @@ func Replace(resource fhir.Resource, path string, value fhir.Base, options ...op
 		return err
 	}
 	return expr.Replace(resource, value)
+}
+
+// isNil reports whether a resource or value is absent: a nil interface, or a
+// nil pointer of a message type.
+func isNil(m proto.Message) bool {
+	return m == nil || !m.ProtoReflect().IsValid()
 }
 
 // storeLastExpression is a simple Expression object that can be used to store
